@@ -17,6 +17,8 @@ RULE = (
     "0x00/0xFF); positions: every byte value at every position of 3-byte arrays; arrays: Hypothesis arrays of "
     "0..64 bytes / in-range samples; invalid: wrong dtype/nbits/order/buffer size must raise ValueError; "
     "defaults: BitsInfo(nbits).bitorder and the file reader/writer use the stated default. "
+    "The depth argument is passed as a Python int or as a numpy integer scalar (np.int64, np.int32, np.intp). "
+    "The depth is passed as a Python int or as a numpy integer scalar (np.int64, np.int32, np.intp). "
     "Non-trivial = array length >= 1 (per-byte cases always), distinct by canonical case JSON."
 )
 ASSUMPTIONS = [
@@ -40,18 +42,25 @@ def _defn_unpack(arr: np.ndarray, nbits: int, order: str) -> np.ndarray:
     return np.array(out, dtype=np.uint8)
 
 
-def _check_unpack(arr, nbits, order, prefill):
+# (narrow unsigned scalars such as np.uint8 are not used: under NumPy 2 promotion rules `size // np.uint8(2)` overflows
+#  for sizes >= 256, which is outside what the documented `nbits: int` promises)
+NB_TYPES = {"int": int, "np.int64": np.int64, "np.int32": np.int32, "np.intp": np.intp}
+
+
+def _check_unpack(arr, nbits, order, prefill, nb_type="int"):
     from sigpyproc.io import bits
 
     arr = np.ascontiguousarray(arr, dtype=np.uint8)
     per = 8 // nbits
     want = _defn_unpack(arr, nbits, order)
+    nb_py = nbits
+    nbits = NB_TYPES[nb_type](nbits)  # the depth as the caller holds it: a Python int or a numpy integer scalar
     got = bits.unpack(arr.copy(), nbits, bitorder=order)
     require(isinstance(got, np.ndarray) and got.dtype == np.uint8, "unpack:dtype", f"{getattr(got,'dtype',None)}")
     require(got.size == arr.size * per, "unpack:length", f"{got.size} != {arr.size * per}")
     require(np.array_equal(got, want), "unpack:values",
             lambda: f"nbits={nbits} order={order} in={arr.tolist()} got={got.tolist()} want={want.tolist()}")
-    require(got.size == 0 or int(got.max()) < (1 << nbits), "unpack:range")
+    require(got.size == 0 or int(got.max()) < (1 << nb_py), "unpack:range")
     # caller-supplied buffer
     buf = np.full(arr.size * per, prefill, dtype=np.uint8)
     ret = bits.unpack(arr.copy(), nbits, buf, bitorder=order)
@@ -68,18 +77,19 @@ def _check_unpack(arr, nbits, order, prefill):
     require(np.array_equal(pbuf, arr), "pack:buffer-values",
             lambda: f"nbits={nbits} order={order} prefill={prefill} want={arr.tolist()} got={pbuf.tolist()}")
     # independent numpy codec agrees too (guards the harness codec itself)
-    assert np.array_equal(unpack_bits(arr.tobytes(), nbits, order), want)
-    assert pack_bits(want, nbits, order) == arr.tobytes()
+    assert np.array_equal(unpack_bits(arr.tobytes(), nb_py, order), want)
+    assert pack_bits(want, nb_py, order) == arr.tobytes()
 
 
-def _check_pack(samples, nbits, order):
+def _check_pack(samples, nbits, order, nb_type="int"):
     from sigpyproc.io import bits
 
     s = np.ascontiguousarray(samples, dtype=np.uint8)
-    packed = bits.pack(s.copy(), nbits, bitorder=order)
     per = 8 // nbits
-    require(packed.size == s.size // per, "pack:length")
     want = np.frombuffer(pack_bits(s, nbits, order), dtype=np.uint8)
+    nbits = NB_TYPES[nb_type](nbits)
+    packed = bits.pack(s.copy(), nbits, bitorder=order)
+    require(packed.size == s.size // per, "pack:length")
     require(np.array_equal(packed, want), "pack:values",
             lambda: f"nbits={nbits} order={order} s={s.tolist()} got={packed.tolist()} want={want.tolist()}")
     un = bits.unpack(packed, nbits, bitorder=order)
@@ -118,8 +128,8 @@ def enum_positions(tier):
 
 def check_array(case, ctx):
     arr = np.array(case["bytes"], dtype=np.uint8)
-    _check_unpack(arr, case["nbits"], case["order"], case.get("prefill", 255))
-    return Info(arr.size >= 1, (f"len{min(arr.size, 9)}",))
+    _check_unpack(arr, case["nbits"], case["order"], case.get("prefill", 255), case.get("nb_type", "int"))
+    return Info(arr.size >= 1, (f"len{min(arr.size, 9)}", "depth_as_" + case.get("nb_type", "int")))
 
 
 def strat_arrays(tier):
@@ -129,6 +139,7 @@ def strat_arrays(tier):
         "order": st.sampled_from(["big", "little"]),
         "bytes": st.lists(st.integers(0, 255), min_size=0, max_size=mx),
         "prefill": st.sampled_from([0, 255, 0x5A]),
+        "nb_type": st.sampled_from(["int", "int", "np.int64", "np.int32", "np.intp"]),
     })
 
 
@@ -141,13 +152,14 @@ def strat_samples(tier):
         per = 8 // nbits
         nbytes = draw(st.integers(0, mx))
         vals = draw(st.lists(st.integers(0, (1 << nbits) - 1), min_size=nbytes * per, max_size=nbytes * per))
-        return {"nbits": nbits, "order": draw(st.sampled_from(["big", "little"])), "samples": vals}
+        return {"nbits": nbits, "order": draw(st.sampled_from(["big", "little"])), "samples": vals,
+                "nb_type": draw(st.sampled_from(["int", "int", "np.int64", "np.int32", "np.intp"]))}
 
     return s()
 
 
 def check_samples(case, ctx):
-    _check_pack(np.array(case["samples"], dtype=np.uint8), case["nbits"], case["order"])
+    _check_pack(np.array(case["samples"], dtype=np.uint8), case["nbits"], case["order"], case.get("nb_type", "int"))
     return Info(len(case["samples"]) >= 1, (f"{case['nbits']}bit",))
 
 
